@@ -180,7 +180,7 @@ Example ex_surface_faces : surface_faces 2 3 = [[0; 1; 4; 3]; [1; 2; 5; 4]]%Z
                         /\ surface_faces 4 2 = [[0; 1; 3; 2]; [2; 3; 5; 4]; [4; 5; 7; 6]]%Z.
 Proof. split; vm_compute; reflexivity. Qed.
 
-Example ex_polyline_edges : polyline_edges 2 4 = [(0, 1); (1, 2); (2, 3)]%Z.
+Example ex_polyline_edges : polyline_edges 2 4 4 = [(0, 1); (1, 2); (2, 3)]%Z.
 Proof. vm_compute. reflexivity. Qed.
 
 Example ex_as_surface : exists r, as_surface Rops [[[0; 0; 0]; [0; 1; 0]]; [[1; 0; 0]; [1; 1; 2]]] 2 3 = Ok r.
@@ -190,7 +190,8 @@ Lemma export_polyline P n_pts custom : P <> [] -> (point_dim P = 2 \/ point_dim 
   let ts := curve_params Rops n_pts custom in
   (Forall unit_closed ts ->
      as_polyline Rops P n_pts custom =
-       Ok (map (fun t => padf (bernstein_vec P t)) ts, ts, polyline_edges n_pts (Z.of_nat (length ts)))) /\
+       Ok (map (fun t => padf (bernstein_vec P t)) ts, ts,
+           polyline_edges n_pts (Z.of_nat (length ts)) (Z.of_nat (length ts)))) /\
   (custom = None -> Forall unit_closed ts) /\
   (forall t, In t ts -> ~ unit_closed t -> as_polyline Rops P n_pts custom = Err EOutOfRange).
 Proof.
